@@ -81,6 +81,8 @@ Ltac ntz_step := apply ntz_wp1; [lia|]; intros ? ?N.
 
 Ltac flag_norm := try change (b2z (1 =? 0)) with 0; try change (b2z (0 =? 0)) with 1.
 
+Definition hidden_case (P : Prop) : Prop := P.
+
 (* ---- the algebra, independent of the limb representation ---- *)
 Lemma add_ge_head X1 Y1 Z1 X2 Y2 ZZ U2v S2a S2v Tv Mv RR0 MaltN TT RR :
   cong ZZ (Z1 * Z1) -> cong U2v (X2 * ZZ) -> cong S2a (Y2 * ZZ) -> cong S2v (S2a * Z1) -> Tv = X1 + U2v -> Mv = Y1 + S2v ->
